@@ -20,7 +20,12 @@ def sanitizer_chain(t):
             x = x.a[0]
         if x.k == "phi":
             chains = [sanitizer_chain(a) for a in x.a[0]]
-            return out + (chains[0] if chains and all(c == chains[0] for c in chains) else ["?"])
+            if chains and all(c == chains[0] for c in chains):
+                return out + chains[0]
+            if not out and all("?" not in c for c in chains) and any(c[:2] == ["join_runs", "remove_empty_intervals"] for c in chains) \
+                    and all(c[:2] == ["join_runs", "remove_empty_intervals"] or c == ["remove_empty_intervals"] for c in chains):
+                return ["?join-on-some-paths"]
+            return out + ["?"]
         if x.k == "call" and x.a[0].k == "attr" and x.a[0].a[1] in ("join_runs", "remove_empty_intervals"):
             out.append(x.a[0].a[1])
             x = _strip_star(x.a[1][0]) if x.a[1] else x
@@ -44,7 +49,10 @@ def canonical_construction(ctx, rule, f, promise_join=True):
         found = True
         chain = sanitizer_chain(tm.a[1][0])
         what = "the result is built from boundaries that passed remove_empty_intervals and then join_runs (join last)"
-        if "?" in chain:
+        if chain == ["?join-on-some-paths"] and promise_join:
+            ctx.violated(rule, f, what, "join_runs is applied on some paths only: on the others adjacent runs with equal values survive (inputs produced by scalar "
+                         "ufuncs, astype and concatenate are not joined, so equal neighbours can exist without any run having been dropped)", node=r.ast, engine="E1")
+        elif "?" in chain or chain == ["?join-on-some-paths"]:
             ctx.unknown(rule, f, what, node=r.ast, engine="E1")
         elif chain[:2] == ["join_runs", "remove_empty_intervals"]:
             ctx.holds(rule, f, what, node=r.ast, engine="E1")
